@@ -74,8 +74,9 @@ def correspond(ctx):
         # verify against a missing hash: False + exactly one dummy verification
         calls = []
         orig = c.dummy_verify
-        c.dummy_verify = lambda calls=calls, orig=orig: (calls.append(1), orig())[1]
-        for p in ("", "pw"):
+        c.dummy_verify = lambda *a, calls=calls, orig=orig, **k: (calls.append(1), orig(*a, **k))[1]
+        # … for every secret, the one the library itself uses for its dummy verification included
+        for p in ("", "pw", "too many secrets", str(getattr(CryptContext, "_dummy_secret", "x"))):
             calls.clear()
             suite.add(f"dis verify {spec} {cps(p)} none", lambda c=c, p=p, calls=calls: str(int(c.verify(p, None))) + f" dummy={len(calls)}", "verify-none")
             # the same promise through the entry point applications use for logins
@@ -266,9 +267,13 @@ def search(ctx, broken, seeds):
                         return fail("enable(normal hash)", c.enable(orig))
                 n = []
                 real = c.dummy_verify
-                c.dummy_verify = lambda n=n, real=real: (n.append(1), real())[1]
-                if c.verify("pw", None) is not False or len(n) != 1:
-                    return {"input": {"op": "verify-none", "schemes": sl}, "observed": {"dummy_calls": len(n)}, "expected": "False and one dummy verification"}
+                c.dummy_verify = lambda *a, n=n, real=real, **k: (n.append(1), real(*a, **k))[1]
+                dummy = getattr(CryptContext, "_dummy_secret", "x")
+                for secret in ("pw", "", "too many secrets", dummy, dummy.encode() if isinstance(dummy, str) else dummy):
+                    del n[:]
+                    got = c.verify(secret, None)
+                    if got is not False or len(n) != 1:
+                        return {"input": {"op": "verify-none", "schemes": sl, "secret": repr(secret)}, "observed": {"result": got, "dummy_calls": len(n)}, "expected": "False and one dummy verification"}
                 del n[:]
                 r = c.verify_and_update("pw", None)
                 if r != (False, None) or len(n) != 1:
